@@ -164,7 +164,10 @@ def planted_case(rng, idx):
     n = rng.randint(2, 6)
     body = []            # (text, diags, is_include)
     for _ in range(n):
-        t, d = _stmt(rng, ctr, snippet=snippet)
+        if rng.random() < 0.4:
+            t, d = shaped_stmt(rng, ctr)
+        else:
+            t, d = _stmt(rng, ctr, snippet=snippet)
         body.append([t, d, False])
     if rng.random() < 0.35:
         kind = rng.choice(["ok", "err", "err", "bad", "decl"])
@@ -270,6 +273,9 @@ def planted_case(rng, idx):
         extra = [("subroutine/unrecognize-call-scope", W), ("unused/declaration", W)]
         tags.append("unused-custom-sub")
     c.main = "\n".join(lines) + "\n"
+    if rng.random() < 0.15:
+        c.main = c.main.replace("\n", "\r\n")      # a file with CRLF line ends
+        tags.append("crlf")
 
     # ---------------- the surviving diagnostics
     for i in range(n):
@@ -320,4 +326,138 @@ def planted_seeds():
     mk("ignored-everything", '# falco-ignore-next-line\nsub vcl_recv {\n  set req.http.B = std.itoa(0, 1, 2);\n  declare local var.u STRING;\n}\n')
     mk("warnings-and-infos", 'sub vcl_recv {\n  error 1000;\n  declare local var.u STRING;\n}\n',
        diags=[("error-statement/code", I), ("unused/variable", W), ("subroutine/boilerplate-macro", W)])
+    return out
+
+
+# ------------------------------------------------------------------------------ lexical shapes
+# Diagnostics raised on an ATOM of a string concatenation, so that the flagged token can sit
+# anywhere on a line of any lexical shape (the runner re-reads the source line to print it).
+ATOMS = [
+    ("re.group.{k}", [("deprecated", W)]),            # uncaptured regex variable
+    ("now", [("-", I)]),                              # implicit TIME -> STRING conversion (needs a neighbour)
+    ("req.restarts", [("-", I)]),                     # implicit INTEGER -> STRING conversion
+    ("std.itoa(0, 1, 2)", [("function/arguments", E)]),
+    ("req.http.Host", []),
+]
+
+
+PIECES = [
+    '"plain"',
+    '{"long string"}',
+    '{xyz"delimited "quoted" long"xyz}',
+    '"é日本\U0001F600"',
+    '{"multi\nline"}',
+    '"' + "v" * 300 + '"',
+    '{LABEL"first capture: "LABEL}',
+    '{"\té"}',
+    '""',
+    '"' + "w" * 5000 + '"',
+]
+
+
+def _piece(rng):
+    return rng.choice(PIECES)
+
+
+def shaped_stmt(rng, ctr, atom=None):
+    """(text, diags): set req.http.S<n> = <pieces> ATOM <pieces>; with blanks, tabs and line breaks between the tokens"""
+    ctr[0] += 1
+    a, dg = ATOMS[atom if atom is not None else rng.randrange(len(ATOMS))]
+    a = a.replace("{k}", str(rng.randint(0, 9)))
+    pre = [_piece(rng) for _ in range(rng.randint(1, 3))]
+    post = [_piece(rng) for _ in range(rng.randint(0, 2))]
+    seps = [" ", " ", "\t", "  ", "\n    ", "\n\t"]
+    toks = ["set", "req.http.S%d" % ctr[0], "="] + pre + [a] + post
+    out = toks[0]
+    for i, t in enumerate(toks[1:], 1):
+        sep = rng.choice(seps if i > 2 else [" ", "\t"])
+        if t == a:
+            sep = rng.choice([" ", "\t", "\n    ", "\n"])          # the flagged token first on its line ...
+        out += sep + t
+    out += rng.choice([";", ";", "\n    ;", " ;"])                 # ... or last on it, the statement continuing below
+    return out, list(dg)
+
+
+# ------------------------------------------------------------------------------ scale
+SCALE_N = [0, 1, 2, 10, 99, 100, 101, 255, 256, 499, 500, 501, 1000, 4096, 10000]
+
+
+def scale_case(n_w, n_i, n_e, order, tag):
+    """n_w WARNING, n_i INFO, n_e ERROR diagnostics, one per statement of vcl_recv, in l.Errors order `order`:
+    'errors-last' | 'errors-first' | 'interleaved'"""
+    c = Case("planted/scale/%s/W%d-I%d-E%d-%s" % (tag, n_w, n_i, n_e, order))
+    w = ['  set req.http.W%d = "a" re.group.1;' % i for i in range(n_w)]
+    inf = ['  set req.http.I%d = "a" now;' % i for i in range(n_i)]
+    e = ['  set req.http.E%d = std.itoa(0, 1, 2);' % i for i in range(n_e)]
+    if order == "errors-last":
+        body = w + inf + e
+    elif order == "errors-first":
+        body = e + w + inf
+    else:
+        body, pools = [], [w, inf, e]
+        total = n_w + n_i + n_e
+        idx = [0, 0, 0]
+        for k in range(total):
+            # round robin over the non-exhausted pools, proportionally
+            j = max(range(3), key=lambda t: (len(pools[t]) - idx[t]) / (len(pools[t]) or 1))
+            body.append(pools[j][idx[j]])
+            idx[j] += 1
+    c.main = "sub vcl_recv {\n  #FASTLY RECV\n" + "\n".join(body) + ("\n" if body else "") + "}\n"
+    c.diags = [("deprecated", W)] * n_w + [("-", I)] * n_i + [("function/arguments", E)] * n_e
+    return c
+
+
+def scale_cases(rng, thorough):
+    out = []
+    # always: more than 500 / 4096 diagnostics of a lower severity in front of a single error, and the mirror images
+    fixed = [(600, 0, 1, "errors-last"), (0, 600, 1, "errors-last"), (300, 300, 2, "errors-last"),
+             (1, 600, 1, "errors-first"), (501, 501, 501, "interleaved"), (4200, 0, 1, "errors-last")]
+    for f in fixed:
+        out.append(scale_case(*f, tag="fixed"))
+    ns = SCALE_N if thorough else rng.sample(SCALE_N, 5)
+    for n in ns:
+        for order in (["errors-last", "errors-first", "interleaved"] if thorough else [rng.choice(["errors-last", "errors-first", "interleaved"])]):
+            mix = rng.choice(["W", "I", "E", "WI", "WE", "IE", "WIE"]) if not thorough else None
+            for m in ([mix] if mix else ["W", "I", "E", "WI", "WIE"]):
+                nw = n if "W" in m else 0
+                ni = n if "I" in m else 0
+                ne = n if "E" in m else rng.choice([0, 1])
+                out.append(scale_case(nw, ni, ne, order, tag="n%d" % n))
+    return out
+
+
+POSITIONS = ["middle", "first-on-line", "last-on-line", "last-then-semicolon", "tabs"]
+
+
+def shape_cases():
+    """every atom x every kind of string piece in front of it x every position of the flagged token on its line:
+    one program per atom (so that the WARNING-only and the INFO-only program have no error), plus CRLF copies"""
+    out = []
+    for ai, (atom, dg) in enumerate(ATOMS):
+        lines, diags, n = [], [], 0
+        for piece in PIECES:
+            for pos in POSITIONS:
+                n += 1
+                a = atom.replace("{k}", str(n % 10))
+                lhs = "set req.http.P%d =" % n
+                if pos == "middle":
+                    t = "%s %s %s %s;" % (lhs, piece, a, '"t"')
+                elif pos == "first-on-line":
+                    t = "%s %s\n    %s %s;" % (lhs, piece, a, '{"t"}')
+                elif pos == "last-on-line":
+                    t = "%s %s %s\n    %s;" % (lhs, piece, a, '"!"')
+                elif pos == "last-then-semicolon":
+                    t = "%s %s %s %s\n    ;" % (lhs, '"s"', piece, a)
+                else:
+                    t = "%s\t%s\t%s\t%s\t;" % (lhs.replace(" ", "\t"), piece, a, '"t"')
+                lines.append("  " + t)
+                diags += dg
+        main = "sub vcl_recv {\n  #FASTLY RECV\n" + "\n".join(lines) + "\n}\n"
+        for crlf in (False, True):
+            if crlf and not dg:
+                continue
+            c = Case("planted/shapes/atom%d%s" % (ai, "/crlf" if crlf else ""))
+            c.main = main.replace("\n", "\r\n") if crlf else main
+            c.diags = list(diags)
+            out.append(c)
     return out
